@@ -660,8 +660,74 @@ func checkRegistryRefresh(c *Check) {
 	c.Req(n >= 2, "internal/app", "-", "refresh:sites", "first collections found", fmt.Sprintf("%d", n))
 }
 
+// CLITRANSITION: the operator's --failover flag decides the kind of request filed: "failover" exactly when it is set.
+func checkCliTransition(c *Check) {
+	p := c.p
+	F := p.MustFunc("(*app.App).CliSwitch")
+	fa := p.FA(F)
+	flagIdx := ""
+	for i, prm := range F.Params {
+		if prm.Name() == "failover" || (isBoolType(prm.Type()) && flagIdx == "") {
+			flagIdx = fmt.Sprint(i)
+		}
+	}
+	flag := func(pos bool) LitPat {
+		return func(l Lit) bool { return l.Pos == pos && isParam(l.T, flagIdx) }
+	}
+	seen := map[string]int{}
+	n := 0
+	for _, b := range F.Blocks {
+		for _, in := range b.Instrs {
+			st, ok := in.(*ssa.Store)
+			if !ok {
+				continue
+			}
+			fad, ok := st.Addr.(*ssa.FieldAddr)
+			if !ok || fieldName(fad.X.Type(), fad.Field) != "app.Switchover.MasterTransition" {
+				continue
+			}
+			n++
+			type alt struct {
+				v    *Term
+				lits []Lit
+			}
+			var alts []alt
+			if ph, isPhi := st.Val.(*ssa.Phi); isPhi {
+				for i, e := range ph.Edges {
+					alts = append(alts, alt{p.T(e), fa.incomingLits(ph.Block(), i, 0)})
+				}
+			} else {
+				alts = []alt{{p.T(st.Val), nil}}
+			}
+			for _, a := range alts {
+				var want bool
+				switch {
+				case a.v.IsConst("failover"):
+					want = true
+				case a.v.IsConst("switchover"):
+					want = false
+				default:
+					c.Fail(p.Name(F), p.InstrPos(st), nthKey("cli-transition", n), "the transition filed by the CLI is one of the two known constants", "stores "+a.v.String())
+					continue
+				}
+				seen[a.v.Name]++
+				okg := false
+				for _, l := range a.lits {
+					okg = okg || flag(want)(l)
+				}
+				if !okg {
+					okg, _ = fa.Gated(st, flag(want))
+				}
+				c.Req(okg, p.Name(F), p.InstrPos(st), nthKey("cli-transition:"+a.v.Name, n), "the request is filed as a forced failover exactly when the operator asked for one (a forced failover filed as a planned switch is blocked by light maintenance, counted against the attempts limit and waits for the dead master)", "")
+			}
+		}
+	}
+	c.Req(seen["failover"] >= 1 && seen["switchover"] >= 1, p.Name(F), "-", "cli-transition:both", "both kinds of request can be filed", fmt.Sprintf("%v", seen))
+}
+
 func init() {
 	sharedRules = append(sharedRules,
+		sharedRule{Suffix: "CLITRANSITION", Props: []string{"C06", "C09"}, Body: checkCliTransition, Doc: "(CLITRANSITION) the CLI files a forced failover exactly when --failover was given"},
 		sharedRule{Suffix: "ADAPTERSENT", Props: []string{"C19"}, Body: checkAdapterSentinels, Doc: "(ADAPTERSENT) the optimisation registry adapter tolerates exactly the sentinels of its contract"},
 		sharedRule{Suffix: "SETTINGSARGS", Props: []string{"C19"}, Body: checkSettingsArgs, Doc: "(SETTINGSARGS) each durability statement is bound to the settings field of the same name"},
 		sharedRule{Suffix: "HEALTHTICK", Props: []string{"C05", "C15"}, Body: checkHealthTick, Doc: "(HEALTHTICK) every tick of the health loop publishes this host's freshly collected record"},
